@@ -32,13 +32,13 @@ def canon_program(p):
     return "ok v%d %s" % (p.version, " ".join(parts))
 
 
-def real_parse(src):
+def real_parse(src, parser=None):
     from mpilot.parser.parser import Parser
     import warnings
     try:
         with warnings.catch_warnings():
             warnings.simplefilter("ignore")
-            return canon_program(Parser().parse(src))
+            return canon_program((parser or Parser()).parse(src))
     except SyntaxError:
         return "syntax"
     except RecursionError:
